@@ -37,6 +37,9 @@ structure Dy where
   exp : Int
   deriving Repr
 
+/-- the rational number a dyadic `num · 2^exp` denotes -/
+def Dy.toRat (d : Dy) : Rat := (d.num : Rat) * (2 : Rat) ^ d.exp
+
 /-- `x` expressed in units of `2^m` (for `m ≤ x.exp`): an integer -/
 def Dy.scaled (x : Dy) (m : Int) : Int := x.num * 2 ^ (x.exp - m).toNat
 
@@ -735,9 +738,10 @@ def bAbs (md : Mode) : List Value → Res
   | .int n :: _ => iabs md n
   | .float f :: _ => .val (.float f.abs)
   | _ => .none
-def bSqrt (fo : FOps) : List Value → Res
-  | .int n :: _ => .val (.float (fo.fn1 "sqrt" (F.ofI64 n)))
-  | .float f :: _ => .val (.float (fo.fn1 "sqrt" f))
+/-- `sqrt`, `log` (= ln), `log10`, `exp`, `sin`, `cos`, `tan`: integers are cast first -/
+def bFn1 (fo : FOps) (name : String) : List Value → Res
+  | .int n :: _ => .val (.float (fo.fn1 name (F.ofI64 n)))
+  | .float f :: _ => .val (.float (fo.fn1 name f))
   | _ => .none
 def bFloor : List Value → Res
   | .float f :: _ => .val (.int f.floor.toI64)
@@ -858,7 +862,8 @@ def bIs (p : Value → Bool) : List Value → Res
 /-- the modelled subset of `eval_builtin_function` (names outside it are listed in
 `unmodelledBuiltins` and are never compared by the correspondence) -/
 def builtinTable (fo : FOps) (md : Mode) : List (String × (List Value → Res)) :=
-  [("abs", bAbs md), ("sqrt", bSqrt fo), ("floor", bFloor), ("ceil", bCeil), ("round", bRound),
+  [("abs", bAbs md), ("sqrt", bFn1 fo "sqrt"), ("log", bFn1 fo "ln"), ("log10", bFn1 fo "log10"),
+   ("exp", bFn1 fo "exp"), ("sin", bFn1 fo "sin"), ("cos", bFn1 fo "cos"), ("tan", bFn1 fo "tan"), ("floor", bFloor), ("ceil", bCeil), ("round", bRound),
    ("pow", bPow fo), ("min", bMin), ("max", bMax), ("len", bLen), ("first", bFirst), ("last", bLast),
    ("push", bPush), ("pop", bPop), ("reverse", bReverse), ("contains", bContains), ("keys", bKeys),
    ("values", bValues), ("get", bGet), ("set", bSet), ("sum", bSum fo), ("avg", bAvg fo),
@@ -881,7 +886,7 @@ def builtin (fo : FOps) (md : Mode) (name : String) (args : List Value) : Res :=
 /-- built-ins of `eval_builtin_function` that the model does not cover (float formatting, Unicode
 case mapping, float parsing, range sizes, sort's comparator) -/
 def unmodelledBuiltins : List String :=
-  ["log", "log10", "exp", "sin", "cos", "tan", "sort", "range", "to_string", "trim", "lower",
+  ["sort", "range", "to_string", "trim", "lower",
    "lowercase", "upper", "uppercase", "split", "join", "replace"]
 
 /-! ### the evaluator -/
